@@ -169,6 +169,11 @@ def build_program(prog, residue_check=True, desc=True):
                 r = p + c
             num_ok(r)
             return [r]
+        if t in ('sum3', 'sum4'):
+            args = [arg(a, env) for a in e['args']]
+            r = (ugn.Sum3 if t == 'sum3' else ugn.Sum4).new(*args)
+            num_ok(r)
+            return [r]
         if t == 'out':
             from sc3.synth.ugens import inout as iou
             cls = getattr(iou, e['cls'])
@@ -464,6 +469,8 @@ def semantic_oracle(prog, rec, sd, d):
                         an = _isnum_val(rec, e['a']); bn = _isnum_val(rec, e['b'])
                         v = a if (an and bn) else opaque(opcodes_ref_name(s, 2), a, b)
                     senv.append([v])
+                elif t in ('sum3', 'sum4'):
+                    senv.append([sum((sarg(a) for a in e['args']), F(0))])
                 elif t == 'madd':
                     senv.append([sarg(e['a']) * sarg(e['m']) + sarg(e['c'])])
                     inter[i] = sarg(e['a']) * sarg(e['m'])      # the product unit a madd may leave behind
@@ -547,7 +554,7 @@ def semantic_oracle(prog, rec, sd, d):
     # created after it and must follow it.
     first_ev = {}
     for j, e in enumerate(events):
-        if e['t'] in ('unop', 'binop', 'madd'):
+        if e['t'] in ('unop', 'binop', 'madd', 'sum3', 'sum4'):
             sig = tuple(all_senv[t][base + j][0] for t in range(len(all_senv)))
             first_ev.setdefault(sig, base + j)
             if e['t'] == 'madd' and all(base + j in all_inter[t] for t in range(len(all_senv))):
@@ -625,6 +632,8 @@ def desc_probe(payload):
     and the library's own reader say about the controls."""
     _init(payload.get('mode', 'nrt'))
     import io
+    from sc3.synth import ugen as ugn
+    from sc3.base import main as _libsc3
     from sc3.synth.synthdef import SynthDef
     from sc3.synth.synthdesc import SynthDesc
     res = []
@@ -706,6 +715,8 @@ def class_witness(payload):
     consequence (a side-effecting unit nothing references is dropped; a unit created after a
     width-first unit is placed before it)."""
     _init(payload.get('mode', 'nrt'))
+    from sc3.synth import ugen as ugn
+    from sc3.base import main as _libsc3
     from sc3.synth.synthdef import SynthDef
     from sc3.synth.ugens.oscillators import SinOsc, LFSaw
     from sc3.synth.ugens.noise import WhiteNoise
@@ -765,3 +776,179 @@ def class_witness(payload):
                                   f'the reference table lists {name} as a unit with an ordering side effect')
         out[name] = w
     return out
+
+
+def class_sweep(payload):
+    """C02 for every unit class of the library that can be constructed without arguments (or with
+    a local buffer / an FFT chain as only argument): the definition containing one such unit is
+    either rejected with an exception or its bytes parse strictly, are well-formed, contain the
+    unit, and are accepted by the library's own description reader."""
+    _init(payload.get('mode', 'nrt'))
+    import io
+    from sc3.synth import ugen as ugn
+    from sc3.base import main as _libsc3
+    from sc3.synth.synthdef import SynthDef
+    from sc3.synth.synthdesc import SynthDesc
+    from sc3.synth.ugens.oscillators import SinOsc
+    from sc3.synth.ugens.noise import WhiteNoise
+    from sc3.synth.ugens.inout import Out
+    from sc3.synth.ugens.bufio import LocalBuf
+    from sc3.synth.ugens.fft import FFT
+    table = _class_table()
+    res = []
+    for name in sorted(table):
+        modname = table[name][2]
+        mod = ugn if modname == 'ugen' else importlib.import_module('sc3.synth.ugens.' + modname)
+        cls = getattr(mod, name)
+        for ctor in ('ar', 'kr', 'ir', 'new', 'dr'):
+            if ctor not in vars(cls) and not (ctor != 'new' and hasattr(cls, ctor)):
+                continue
+            done = False
+            for argkind in ('none', 'sig', 'buf', 'chain'):
+                if done:
+                    break
+                made = {}
+
+                def f():
+                    if argkind == 'none':
+                        args = ()
+                    elif argkind == 'sig':
+                        args = (WhiteNoise.ar() if ctor == 'ar' else WhiteNoise.kr(),)
+                    else:
+                        buf = LocalBuf.new(64, 1)
+                        args = (buf,) if argkind == 'buf' else (FFT.kr(buf, WhiteNoise.ar()),)
+                    n0 = len(_libsc3.main._current_synthdef._children)
+                    getattr(cls, ctor)(*args)
+                    made['units'] = [type(c).__name__ for c in _libsc3.main._current_synthdef._children[n0:]]
+                    Out.ar(0, SinOsc.ar(440))
+                try:
+                    sd = SynthDef('sw', f)
+                    raw = bytes(sd.as_bytes())
+                except Exception:
+                    continue          # not constructible this way / rejected: nothing emitted
+                done = True
+                status = 'ok'
+                try:
+                    d = scgf.parse(raw)[0]
+                    bad = scgf.wellformed(d)
+                    if bad:
+                        status = 'not well-formed: ' + bad[0]
+                    elif not all(c.isascii() for u in d['ugens'] for c in u['cls']):
+                        status = 'unit class name garbled'
+                    elif made.get('units') and made['units'][-1] not in ('OutputProxy',) \
+                            and not table[name][0] == 1 and made['units'][-1] not in [u['cls'] for u in d['ugens']] \
+                            and made['units'][-1] == name and isinstance(getattr(cls, '_is_pseudo', None), type(None)) \
+                            and issubclass(cls, ugn.UGen):
+                        status = f'unit {name} missing from the emitted definition'
+                except scgf.ScgfError as ex:
+                    status = f'bytes do not parse: {ex}'
+                if status == 'ok':
+                    try:
+                        descs = SynthDesc._read_stream(io.BytesIO(raw))
+                        if len(descs) != 1 or descs[0].name != 'sw':
+                            status = 'reader recovers a different definition'
+                    except Exception as ex:
+                        status = f'reader rejects the bytes: {type(ex).__name__}: {str(ex)[:100]}'
+                res.append([name, ctor, argkind, status])
+    return res
+
+
+def srfirst_probe(payload):
+    """C02, invalid graphs: units whose first input must run at the unit's own rate (reference list
+    payload['classes'], SuperCollider's checkSameRateAsFirstInput family) given a first input of the
+    other rate must be rejected, not compiled."""
+    _init(payload.get('mode', 'nrt'))
+    from sc3.synth import ugen as ugn
+    from sc3.synth.synthdef import SynthDef
+    from sc3.synth.ugens.noise import WhiteNoise
+    from sc3.synth.ugens.inout import Out
+    table = _class_table()
+    res = []
+    for name in payload['classes']:
+        if name not in table:
+            continue
+        modname = table[name][2]
+        mod = ugn if modname == 'ugen' else importlib.import_module('sc3.synth.ugens.' + modname)
+        cls = getattr(mod, name)
+        for ctor, other in (('kr', 'ar'), ('ar', 'kr')):
+            if not hasattr(cls, ctor):
+                continue
+            st = {}
+
+            def f():
+                sig = getattr(WhiteNoise, other)()
+                try:
+                    x = getattr(cls, ctor)(sig)
+                except TypeError:
+                    st['na'] = True          # needs more arguments: not constructible this way
+                    raise
+                st['made'] = True
+                if isinstance(x, (ugn.UGen, list)):
+                    getattr(Out, ctor)(0, x)
+            try:
+                sd = SynthDef('sr', f)
+                raw = bytes(sd.as_bytes())
+                d = scgf.parse(raw)[0]
+                present = name in [u['cls'] for u in d['ugens']]
+                res.append([name, ctor, 'compiled' if present else 'dropped'])
+            except Exception as ex:
+                res.append([name, ctor, 'n/a' if st.get('na') and not st.get('made') else 'rejected'])
+    return res
+
+
+PYOP_FORMS = {
+    # form: lambda x, y -> expression (Python operator protocol / builtins on unit generators)
+    'neg': lambda x, y: -x, 'pos': lambda x, y: +x, 'abs': lambda x, y: abs(x), 'invert': lambda x, y: ~x,
+    'round1': lambda x, y: round(x), 'round_q': lambda x, y: round(x, 0.5),
+    'floor': lambda x, y: math.floor(x), 'ceil': lambda x, y: math.ceil(x), 'trunc': lambda x, y: math.trunc(x),
+    'add': lambda x, y: x + y, 'sub': lambda x, y: x - y, 'mul': lambda x, y: x * y, 'truediv': lambda x, y: x / y,
+    'floordiv': lambda x, y: x // y, 'mod': lambda x, y: x % y, 'pow': lambda x, y: x ** y,
+    'lshift': lambda x, y: x << y, 'rshift': lambda x, y: x >> y, 'and': lambda x, y: x & y,
+    'or': lambda x, y: x | y, 'xor': lambda x, y: x ^ y,
+    'lt': lambda x, y: x < y, 'le': lambda x, y: x <= y, 'gt': lambda x, y: x > y, 'ge': lambda x, y: x >= y,
+    'eq': lambda x, y: x == y, 'ne': lambda x, y: x != y,
+    'radd': lambda x, y: 3 + x, 'rsub': lambda x, y: 3 - x, 'rmul': lambda x, y: 3 * x, 'rtruediv': lambda x, y: 3 / x,
+    'rfloordiv': lambda x, y: 3 // x, 'rmod': lambda x, y: 3 % x, 'rpow': lambda x, y: 3 ** x,
+    'rlshift': lambda x, y: 3 << x, 'rrshift': lambda x, y: 3 >> x, 'rand': lambda x, y: 3 & x,
+    'ror': lambda x, y: 3 | x, 'rxor': lambda x, y: 3 ^ x,
+    'rlt': lambda x, y: 3 < x, 'rle': lambda x, y: 3 <= x, 'rgt': lambda x, y: 3 > x, 'rge': lambda x, y: 3 >= x,
+}
+
+
+def pyop_probe(payload):
+    """Python's operator protocol on unit generators: for every form, the operator unit the emitted
+    definition contains (class, special index) and its inputs as tokens x / y / constant."""
+    _init(payload.get('mode', 'nrt'))
+    from sc3.synth.synthdef import SynthDef
+    from sc3.synth.ugens.noise import WhiteNoise, Dust
+    from sc3.synth.ugens.inout import Out
+    res = []
+    for form, fn in PYOP_FORMS.items():
+        def f():
+            x, y = WhiteNoise.ar(), Dust.ar(5)
+            Out.ar(0, fn(x, y))
+        try:
+            sd = SynthDef('po', f)
+            d = scgf.parse(bytes(sd.as_bytes()))[0]
+        except Exception as ex:
+            res.append([form, 'EXC', type(ex).__name__, []])
+            continue
+        names = {}
+        for i, u in enumerate(d['ugens']):
+            if u['cls'] == 'WhiteNoise': names[i] = 'x'
+            elif u['cls'] == 'Dust': names[i] = 'y'
+
+        def tok(a, k):
+            if a < 0:
+                return fmt_frac(d['consts'][k])
+            return names.get(a, f'u{a}')
+        ops = [u for u in d['ugens'] if u['cls'] in ('UnaryOpUGen', 'BinaryOpUGen')]
+        outu = [u for u in d['ugens'] if u['cls'] == 'Out'][0]
+        if not ops:
+            res.append([form, 'NONE', -1, [tok(a, k) for a, k in outu['ins'][1:]]])
+        elif len(ops) > 1:
+            res.append([form, 'MANY', len(ops), []])
+        else:
+            u = ops[0]
+            res.append([form, u['cls'], u['sp'], [tok(a, k) for a, k in u['ins']]])
+    return res
